@@ -35,6 +35,8 @@ package pathdb
 //	w.RefNodes(root) *pdbRefNodes    reference trie node sets (path -> blob) of the account trie and of
 //	                                 every non-empty storage trie at root, built by kit/reftrie.
 //	w.Roots()                        all known roots in creation order (index 0 = empty root).
+//	pdbVerifyReads(db, w, root)      sub-oracle: every account/slot/trie-node read at root through
+//	                                 StateReader/NodeReader equals the model ("" = ok, else the difference).
 //	w.AllAccountHashes()/AllSlotHashes()  every pool key incl. the sequencer and one never-used key
 //	                                 (pdbAbsentAccount / pdbAbsentSlot) for "absent" probes.
 //
@@ -794,4 +796,70 @@ func (w *pdbWorld) selfCheck(tr *pdbTransition) {
 			}
 		}
 	}
+}
+
+// pdbVerifyReads reads every pool account, slot (plus never-used keys) and every
+// reference trie node of root through StateReader/NodeReader(root) and returns a
+// description of the first difference from the model ("" if none). Shared by the
+// checks that need "reads at this root agree with the model" as a sub-oracle.
+func pdbVerifyReads(db *Database, w *pdbWorld, root common.Hash) string {
+	st := w.State(root)
+	sr, err := db.StateReader(root)
+	if err != nil {
+		return fmt.Sprintf("StateReader(%x): %v", root, err)
+	}
+	nr, err := db.NodeReader(root)
+	if err != nil {
+		return fmt.Sprintf("NodeReader(%x): %v", root, err)
+	}
+	rd := sr.(*reader)
+	for _, a := range w.AllAccountHashes() {
+		got, err := rd.AccountRLP(a)
+		if err != nil {
+			return fmt.Sprintf("account %x at %x: %v", a, root, err)
+		}
+		if want := st.AccountBlob(a); !(len(got) == 0 && len(want) == 0) && !bytes.Equal(got, want) {
+			return fmt.Sprintf("account %x at %x: got %x, model %x", a, root, got, want)
+		}
+		for _, s := range w.AllSlotHashes() {
+			got, err := rd.Storage(a, s)
+			if err != nil {
+				return fmt.Sprintf("slot %x/%x at %x: %v", a, s, root, err)
+			}
+			if want := st.SlotBlob(a, s); !(len(got) == 0 && len(want) == 0) && !bytes.Equal(got, want) {
+				return fmt.Sprintf("slot %x/%x at %x: got %x, model %x", a, s, root, got, want)
+			}
+		}
+	}
+	ref := w.RefNodes(root)
+	check := func(owner common.Hash, set map[string][]byte) string {
+		paths := make([]string, 0, len(set))
+		for p := range set {
+			paths = append(paths, p)
+		}
+		sort.Strings(paths)
+		for _, p := range paths {
+			got, err := nr.Node(owner, []byte(p), common.Hash(reftrie.Keccak256(set[p])))
+			if err != nil {
+				return fmt.Sprintf("node %x/%x at %x: %v", owner, p, root, err)
+			}
+			if !bytes.Equal(got, set[p]) {
+				return fmt.Sprintf("node %x/%x at %x: got %x, reference %x", owner, p, root, got, set[p])
+			}
+		}
+		return ""
+	}
+	if d := check(common.Hash{}, ref.Account); d != "" {
+		return d
+	}
+	owners := make([]common.Hash, 0, len(ref.Storage))
+	for o := range ref.Storage {
+		owners = append(owners, o)
+	}
+	for _, o := range pdbSortHashes(owners) {
+		if d := check(o, ref.Storage[o]); d != "" {
+			return d
+		}
+	}
+	return ""
 }
